@@ -62,6 +62,9 @@ def run_property(prop: str, tier: str, quiet: bool = False, write: bool = True, 
         from .selftest import run_selftest
         st = run_selftest(prop)
         info["selftest"] = st
+        from .sweep import run_sweep, run_probes
+        info["preserve_sweep"] = run_sweep(prop)
+        info["mutation_probes"] = run_probes(prop)
         wall = time.time() - t0
     if write:
         write_evidence(prop, tier, spec["level"](results, violations, known_hits), results, len(violations), len(known_hits), wall,
